@@ -79,11 +79,11 @@ func g2Parse(c *c13ref.WCurve, b []byte) (c13ref.WPoint, bool) {
 }
 
 var (
-	blsOnce    sync.Once
-	blsC1      *c13ref.WCurve
-	blsC2      *c13ref.WCurve
-	blsPool1   []wpt
-	blsPool2   []wpt
+	blsOnce  sync.Once
+	blsC1    *c13ref.WCurve
+	blsC2    *c13ref.WCurve
+	blsPool1 []wpt
+	blsPool2 []wpt
 )
 
 func blsSetup() {
@@ -113,6 +113,7 @@ func mkScalar(k *big.Int) *bls.Scalar {
 }
 
 func g1Check(op, class string, want c13ref.WPoint, got *bls.G1, detail map[string]any) bool {
+	detail["case-class"], class = class, c13ref.Coarse(class)
 	g, ok := g1Parse(blsC1, got.Bytes())
 	if !ok || !blsC1.Eq(g, want) {
 		detail["want"], detail["got"] = wstr(want), lib.Hex(got.Bytes())
@@ -131,6 +132,7 @@ func g1Check(op, class string, want c13ref.WPoint, got *bls.G1, detail map[strin
 }
 
 func g2Check(op, class string, want c13ref.WPoint, got *bls.G2, detail map[string]any) bool {
+	detail["case-class"], class = class, c13ref.Coarse(class)
 	g, ok := g2Parse(blsC2, got.Bytes())
 	if !ok || !blsC2.Eq(g, want) {
 		detail["want"], detail["got"] = wstr(want), lib.Hex(got.Bytes())
@@ -537,98 +539,100 @@ func TestVerifPairing(t *testing.T) {
 
 	n := lib.Scale(160, 8000)
 	lib.Par(n, func(i int) {
-		r := lib.NewRng("c13/pair/bilinear", i)
-		P, p := getP(r)
-		Q, q := getQ(r)
-		a, _ := c13ref.GenScalar(r, R, 32)
-		b, _ := c13ref.GenScalar(r, R, 32)
-		if r.Intn(3) == 0 {
-			a = big.NewInt(int64(r.Intn(5)))
-		}
-		a.Mod(a, R)
-		b.Mod(b, R)
-		det := lib.D("P", wstr(p.P), "Q", wstr(q.P), "a", a.Text(16), "b", b.Text(16))
-		// aP, bQ from the reference (so this monitor does not lean on ScalarMult)
-		aP, _ := mkG1(c1.Mul(a, p.P))
-		bQ, _ := mkG2(c2.Mul(b, q.P))
-		lib.Case([]byte("pair:bilinear"), p.P.Bytes(), q.P.Bytes(), a.Bytes(), b.Bytes())
-		lib.Count("pair:bilinear")
-		var lhs, base, rhs *bls.Gt
-		if pn := lib.Try("bls12381.Pair", nil, func() {
-			lhs = bls.Pair(aP, bQ)
-			base = bls.Pair(P, Q)
-		}); pn != nil {
-			det["panic"] = pn.Value
-			lib.Violation("C13:panic:bls12381.Pair", monPair, det)
-			return
-		}
-		ab := new(big.Int).Mul(a, b)
-		ab.Mod(ab, R)
-		if ab.Sign() == 0 {
-			lib.Count("pair:bilinear:ab=0")
-		}
-		rhs = new(bls.Gt)
-		rhs.Exp(base, mkScalar(ab))
-		if !lhs.IsEqual(rhs) {
-			lib.Violation("C13:pairing:not-bilinear", monPair, det)
-			return
-		}
-		// two-step exponentiation gives the same
-		t2 := new(bls.Gt)
-		t2.Exp(base, mkScalar(a))
-		t2.Exp(t2, mkScalar(b))
-		if !t2.IsEqual(rhs) {
-			lib.Violation("C13:pairing:Gt.Exp-inconsistent", monPair, det)
-		}
-		// identity arguments
-		if p.P.Inf || q.P.Inf {
-			lib.Count("pair:identity-arg")
-			if !base.IsIdentity() {
-				lib.Violation("C13:pairing:identity-not-mapped-to-one", monPair, det)
+		guarded(monPair, "bls12381.Pair:case", nil, func() {
+			r := lib.NewRng("c13/pair/bilinear", i)
+			P, p := getP(r)
+			Q, q := getQ(r)
+			a, _ := c13ref.GenScalar(r, R, 32)
+			b, _ := c13ref.GenScalar(r, R, 32)
+			if r.Intn(3) == 0 {
+				a = big.NewInt(int64(r.Intn(5)))
 			}
-		} else if base.IsIdentity() {
-			lib.Violation("C13:pairing:degenerate", monPair, det)
-		}
-		// e(-P,Q) = e(P,-Q) = e(P,Q)^-1
-		nP := *P
-		nP.Neg()
-		nQ := *Q
-		nQ.Neg()
-		inv := new(bls.Gt)
-		inv.Inv(base)
-		lib.Count("pair:neg")
-		if !bls.Pair(&nP, Q).IsEqual(inv) || !bls.Pair(P, &nQ).IsEqual(inv) {
-			lib.Violation("C13:pairing:negation", monPair, det)
-		}
-		chk := new(bls.Gt)
-		chk.Mul(inv, base)
-		if !chk.IsIdentity() {
-			lib.Violation("C13:pairing:Gt.Inv", monPair, det)
-		}
-		// additivity in each argument
-		P2, p2 := getP(r)
-		Q2, q2 := getQ(r)
-		sP, _ := mkG1(c1.Add(p.P, p2.P))
-		sQ, _ := mkG2(c2.Add(q.P, q2.P))
-		l1 := bls.Pair(sP, Q)
-		r1 := new(bls.Gt)
-		r1.Mul(base, bls.Pair(P2, Q))
-		lib.Count("pair:additive-G1")
-		if !l1.IsEqual(r1) {
-			det["P2"] = wstr(p2.P)
-			lib.Violation("C13:pairing:not-additive-G1", monPair, det)
-		}
-		l2 := bls.Pair(P, sQ)
-		r2 := new(bls.Gt)
-		r2.Mul(base, bls.Pair(P, Q2))
-		lib.Count("pair:additive-G2")
-		if !l2.IsEqual(r2) {
-			det["Q2"] = wstr(q2.P)
-			lib.Violation("C13:pairing:not-additive-G2", monPair, det)
-		}
-		if i == 0 {
-			lib.Sample(monPair, lib.D("P", wstr(p.P), "Q", wstr(q.P), "a", a.Text(16), "b", b.Text(16), "e(aP,bQ)", gtHex(lhs)))
-		}
+			a.Mod(a, R)
+			b.Mod(b, R)
+			det := lib.D("P", wstr(p.P), "Q", wstr(q.P), "a", a.Text(16), "b", b.Text(16))
+			// aP, bQ from the reference (so this monitor does not lean on ScalarMult)
+			aP, _ := mkG1(c1.Mul(a, p.P))
+			bQ, _ := mkG2(c2.Mul(b, q.P))
+			lib.Case([]byte("pair:bilinear"), p.P.Bytes(), q.P.Bytes(), a.Bytes(), b.Bytes())
+			lib.Count("pair:bilinear")
+			var lhs, base, rhs *bls.Gt
+			if pn := lib.Try("bls12381.Pair", nil, func() {
+				lhs = bls.Pair(aP, bQ)
+				base = bls.Pair(P, Q)
+			}); pn != nil {
+				det["panic"] = pn.Value
+				lib.Violation("C13:panic:bls12381.Pair", monPair, det)
+				return
+			}
+			ab := new(big.Int).Mul(a, b)
+			ab.Mod(ab, R)
+			if ab.Sign() == 0 {
+				lib.Count("pair:bilinear:ab=0")
+			}
+			rhs = new(bls.Gt)
+			rhs.Exp(base, mkScalar(ab))
+			if !lhs.IsEqual(rhs) {
+				lib.Violation("C13:pairing:not-bilinear", monPair, det)
+				return
+			}
+			// two-step exponentiation gives the same
+			t2 := new(bls.Gt)
+			t2.Exp(base, mkScalar(a))
+			t2.Exp(t2, mkScalar(b))
+			if !t2.IsEqual(rhs) {
+				lib.Violation("C13:pairing:Gt.Exp-inconsistent", monPair, det)
+			}
+			// identity arguments
+			if p.P.Inf || q.P.Inf {
+				lib.Count("pair:identity-arg")
+				if !base.IsIdentity() {
+					lib.Violation("C13:pairing:identity-not-mapped-to-one", monPair, det)
+				}
+			} else if base.IsIdentity() {
+				lib.Violation("C13:pairing:degenerate", monPair, det)
+			}
+			// e(-P,Q) = e(P,-Q) = e(P,Q)^-1
+			nP := *P
+			nP.Neg()
+			nQ := *Q
+			nQ.Neg()
+			inv := new(bls.Gt)
+			inv.Inv(base)
+			lib.Count("pair:neg")
+			if !bls.Pair(&nP, Q).IsEqual(inv) || !bls.Pair(P, &nQ).IsEqual(inv) {
+				lib.Violation("C13:pairing:negation", monPair, det)
+			}
+			chk := new(bls.Gt)
+			chk.Mul(inv, base)
+			if !chk.IsIdentity() {
+				lib.Violation("C13:pairing:Gt.Inv", monPair, det)
+			}
+			// additivity in each argument
+			P2, p2 := getP(r)
+			Q2, q2 := getQ(r)
+			sP, _ := mkG1(c1.Add(p.P, p2.P))
+			sQ, _ := mkG2(c2.Add(q.P, q2.P))
+			l1 := bls.Pair(sP, Q)
+			r1 := new(bls.Gt)
+			r1.Mul(base, bls.Pair(P2, Q))
+			lib.Count("pair:additive-G1")
+			if !l1.IsEqual(r1) {
+				det["P2"] = wstr(p2.P)
+				lib.Violation("C13:pairing:not-additive-G1", monPair, det)
+			}
+			l2 := bls.Pair(P, sQ)
+			r2 := new(bls.Gt)
+			r2.Mul(base, bls.Pair(P, Q2))
+			lib.Count("pair:additive-G2")
+			if !l2.IsEqual(r2) {
+				det["Q2"] = wstr(q2.P)
+				lib.Violation("C13:pairing:not-additive-G2", monPair, det)
+			}
+			if i == 0 {
+				lib.Sample(monPair, lib.D("P", wstr(p.P), "Q", wstr(q.P), "a", a.Text(16), "b", b.Text(16), "e(aP,bQ)", gtHex(lhs)))
+			}
+		})
 	})
 
 	// explicit identity cases
@@ -701,83 +705,85 @@ func TestVerifPairing(t *testing.T) {
 	}
 	np := lib.Scale(120, 6000)
 	lib.Par(np, func(i int) {
-		r := lib.NewRng("c13/pair/prod", i)
-		l := r.Intn(6)
-		if i == 0 {
-			l = 0
-		}
-		var Ps []*bls.G1
-		var Qs []*bls.G2
-		var ns []*bls.Scalar
-		var signs []int
-		want := new(bls.Gt)
-		want.SetIdentity()
-		wantF := new(bls.Gt)
-		wantF.SetIdentity()
-		desc := []any{}
-		hasO, hasNeg, hasO1 := false, false, false
-		for j := 0; j < l; j++ {
-			P, p := getP(r)
-			Q, q := getQ(r)
-			k, _ := c13ref.GenScalar(r, R, 32)
-			k.Mod(k, R)
-			s := 1
-			if r.Bool() {
-				s = -1
-				hasNeg = true
+		guarded(monPair, "bls12381.ProdPair:case", nil, func() {
+			r := lib.NewRng("c13/pair/prod", i)
+			l := r.Intn(6)
+			if i == 0 {
+				l = 0
 			}
-			if p.P.Inf || q.P.Inf {
-				hasO = true
+			var Ps []*bls.G1
+			var Qs []*bls.G2
+			var ns []*bls.Scalar
+			var signs []int
+			want := new(bls.Gt)
+			want.SetIdentity()
+			wantF := new(bls.Gt)
+			wantF.SetIdentity()
+			desc := []any{}
+			hasO, hasNeg, hasO1 := false, false, false
+			for j := 0; j < l; j++ {
+				P, p := getP(r)
+				Q, q := getQ(r)
+				k, _ := c13ref.GenScalar(r, R, 32)
+				k.Mod(k, R)
+				s := 1
+				if r.Bool() {
+					s = -1
+					hasNeg = true
+				}
+				if p.P.Inf || q.P.Inf {
+					hasO = true
+				}
+				if p.P.Inf {
+					hasO1 = true
+				}
+				Ps, Qs, ns, signs = append(Ps, P), append(Qs, Q), append(ns, mkScalar(k)), append(signs, s)
+				e := bls.Pair(P, Q)
+				ek := new(bls.Gt)
+				ek.Exp(e, mkScalar(k))
+				want.Mul(want, ek)
+				if s == -1 {
+					ei := new(bls.Gt)
+					ei.Inv(e)
+					wantF.Mul(wantF, ei)
+				} else {
+					wantF.Mul(wantF, e)
+				}
+				desc = append(desc, map[string]any{"P": wstr(p.P), "Q": wstr(q.P), "n": k.Text(16), "sign": s})
 			}
-			if p.P.Inf {
-				hasO1 = true
+			det := lib.D("terms", desc)
+			lib.CaseS("pair:prod", gtHex(want), gtHex(wantF))
+			lib.Count("pair:ProdPair")
+			lib.Count("pair:ProdPairFrac")
+			if l == 0 {
+				lib.Count("pair:ProdPair:empty")
 			}
-			Ps, Qs, ns, signs = append(Ps, P), append(Qs, Q), append(ns, mkScalar(k)), append(signs, s)
-			e := bls.Pair(P, Q)
-			ek := new(bls.Gt)
-			ek.Exp(e, mkScalar(k))
-			want.Mul(want, ek)
-			if s == -1 {
-				ei := new(bls.Gt)
-				ei.Inv(e)
-				wantF.Mul(wantF, ei)
-			} else {
-				wantF.Mul(wantF, e)
+			if hasO {
+				lib.Count("pair:ProdPair:with-identity")
 			}
-			desc = append(desc, map[string]any{"P": wstr(p.P), "Q": wstr(q.P), "n": k.Text(16), "sign": s})
-		}
-		det := lib.D("terms", desc)
-		lib.CaseS("pair:prod", gtHex(want), gtHex(wantF))
-		lib.Count("pair:ProdPair")
-		lib.Count("pair:ProdPairFrac")
-		if l == 0 {
-			lib.Count("pair:ProdPair:empty")
-		}
-		if hasO {
-			lib.Count("pair:ProdPair:with-identity")
-		}
-		if hasNeg {
-			lib.Count("pair:ProdPairFrac:negative")
-		}
-		// a G1 identity among several terms is a class of its own (batch
-		// normalisation of the G1 inputs)
-		vclass := "generic"
-		if hasO1 && l >= 2 {
-			vclass = "identity-G1-term"
-			lib.Count("pair:ProdPair:identity-G1-term")
-		}
-		var got, gotF *bls.Gt
-		if pn := lib.Try("bls12381.ProdPair", nil, func() { got = bls.ProdPair(Ps, Qs, ns) }); pn != nil {
-			det["panic"] = pn.Value
-			lib.Violation("C13:panic:bls12381.ProdPair", monPair, det)
-		} else if !got.IsEqual(want) {
-			lib.Violation("C13:pairing:ProdPair:"+vclass, monPair, det)
-		}
-		if pn := lib.Try("bls12381.ProdPairFrac", nil, func() { gotF = bls.ProdPairFrac(Ps, Qs, signs) }); pn != nil {
-			det["panic"] = pn.Value
-			lib.Violation("C13:panic:bls12381.ProdPairFrac", monPair, det)
-		} else if !gotF.IsEqual(wantF) {
-			lib.Violation("C13:pairing:ProdPairFrac:"+vclass, monPair, det)
-		}
+			if hasNeg {
+				lib.Count("pair:ProdPairFrac:negative")
+			}
+			// a G1 identity among several terms is a class of its own (batch
+			// normalisation of the G1 inputs)
+			vclass := "generic"
+			if hasO1 && l >= 2 {
+				vclass = "identity-G1-term"
+				lib.Count("pair:ProdPair:identity-G1-term")
+			}
+			var got, gotF *bls.Gt
+			if pn := lib.Try("bls12381.ProdPair", nil, func() { got = bls.ProdPair(Ps, Qs, ns) }); pn != nil {
+				det["panic"] = pn.Value
+				lib.Violation("C13:panic:bls12381.ProdPair", monPair, det)
+			} else if !got.IsEqual(want) {
+				lib.Violation("C13:pairing:ProdPair:"+vclass, monPair, det)
+			}
+			if pn := lib.Try("bls12381.ProdPairFrac", nil, func() { gotF = bls.ProdPairFrac(Ps, Qs, signs) }); pn != nil {
+				det["panic"] = pn.Value
+				lib.Violation("C13:panic:bls12381.ProdPairFrac", monPair, det)
+			} else if !gotF.IsEqual(wantF) {
+				lib.Violation("C13:pairing:ProdPairFrac:"+vclass, monPair, det)
+			}
+		})
 	})
 }
